@@ -225,6 +225,11 @@ func (x *world) do(op int, k mux.Int, ctx context.Context) string {
 			w.Failf("Delete(%d) succeeded but the cache still holds an entry for the key", k)
 		}
 	}
+	if op == 0 && undisturbed && err == nil {
+		if sv, has := x.s.m[k]; !has || res != sv {
+			w.Failf("Get(%d) returned %v while the store holds %v (present=%v) and no other operation on the key was in flight", k, res, sv, has)
+		}
+	}
 	if alone {
 		x.coherent(k, opNames[op])
 	}
@@ -328,6 +333,11 @@ func concurrent(c cfg, name string, threads [][]step, seed []step, faults bool, 
 			}
 			x := xi.(*world)
 			for _, k := range x.keys {
+				for _, h := range mux.VerifCacheHolders(x.g, k) {
+					if h != mux.VerifWorkerOf(x.g, k) {
+						return fmt.Errorf("worker %d holds a cache entry for key %d, which is served by worker %d: writes and deletes of the key will never renew or drop that copy", h, k, mux.VerifWorkerOf(x.g, k))
+					}
+				}
 				if x.inflight[k] == 0 {
 					cv, ok := mux.VerifCachePeek(x.g, k)
 					if ok {
@@ -483,6 +493,7 @@ func scenarios(r *ev.Run) []*mc.Scenario {
 		{"lru=2/workers=1/oversized-values", 2, 1, []mux.Int{1, 2}, true, false, 0},
 		{"map/workers=1/nil-values", 0, 1, []mux.Int{1, 2}, false, true, 0},
 		{"map/workers=1/queue-depth=1", 0, 1, []mux.Int{1, 2}, false, false, 1}, // a third concurrent operation is refused (queue full)
+		{"map/workers=2/queue-depth=1", 0, 2, []mux.Int{1, 3}, false, false, 1},
 	}
 	scs := append([]*mc.Scenario{optionsScenario()}, hashScenarios()...)
 	for ci, c := range cfgs {
@@ -492,16 +503,28 @@ func scenarios(r *ev.Run) []*mc.Scenario {
 		if c.size > 1 {
 			pb = [2]int{1, 1}
 		}
+		// the variant configurations (oversized / nil values, queue depth 1) run the heaviest programs in
+		// the thorough tier only
+		variant := ci >= 5 && r.Quick()
 		if ci != 2 { // the two-workers configuration differs from workers=2 only for programs that use both keys
 			scs = append(scs,
 				concurrent(c, "update|delete|get", [][]step{{{2, k1}}, {{3, k1}}, {{0, k1}}}, seed, true, pb, [2]int{1, 1}),
 				concurrent(c, "upsertload|update|get", [][]step{{{5, k1}}, {{2, k1}}, {{0, k1}}}, nil, true, pb, [2]int{1, 1}),
 				concurrent(c, "add|add|delete", [][]step{{{1, k1}}, {{1, k1}}, {{3, k1}}}, nil, true, pb, [2]int{1, 1}),
-				concurrent(c, "updoradd|upsertrenew|get,get", [][]step{{{4, k1}}, {{6, k1}}, {{0, k1}, {0, k1}}}, nil, true, [2]int{1, 1}, [2]int{1, 1}),
-				// the same programs without injected failures go one preemption deeper
-				concurrent(c, "update|delete|get", [][]step{{{2, k1}}, {{3, k1}}, {{0, k1}}}, seed, false, [2]int{2, 3}, [2]int{0, 0}),
-				concurrent(c, "add|add|delete", [][]step{{{1, k1}}, {{1, k1}}, {{3, k1}}}, nil, false, [2]int{2, 3}, [2]int{0, 0}),
 			)
+			if !variant {
+				scs = append(scs,
+					concurrent(c, "updoradd|upsertrenew|get,get", [][]step{{{4, k1}}, {{6, k1}}, {{0, k1}, {0, k1}}}, nil, true, [2]int{1, 1}, [2]int{1, 1}),
+					// the same programs without injected failures go one preemption deeper
+					concurrent(c, "update|delete|get", [][]step{{{2, k1}}, {{3, k1}}, {{0, k1}}}, seed, false, [2]int{2, 3}, [2]int{0, 0}),
+					concurrent(c, "add|add|delete", [][]step{{{1, k1}}, {{1, k1}}, {{3, k1}}}, nil, false, [2]int{2, 3}, [2]int{0, 0}),
+				)
+			} else {
+				scs = append(scs, concurrent(c, "updoradd|upsertrenew|get", [][]step{{{4, k1}}, {{6, k1}}, {{0, k1}}}, nil, true, [2]int{1, 1}, [2]int{1, 1}))
+			}
+			if c.deep == 1 { // four callers on one key: the worker's queue is exactly full when the later ones arrive
+				scs = append(scs, concurrent(c, "saturation/get|get|get|delete,get", [][]step{{{0, k1}}, {{0, k1}}, {{0, k1}}, {{3, k1}, {0, k1}}}, seed, false, [2]int{0, 1}, [2]int{0, 0}))
+			}
 			if c.deep == 0 { // the acceptance-order program queues three operations at once
 				scs = append(scs, ordered(c))
 			}
@@ -516,7 +539,7 @@ func scenarios(r *ev.Run) []*mc.Scenario {
 
 func main() {
 	r := ev.Start("C15")
-	r.Rule("every interleaving (preemption bound as stated) of 2-3 callers issuing get/add/update/delete/update-or-add/upsert-then-load/upsert-then-renew on colliding keys, the instrumented in-memory store deciding by explorer choice whether each callback fails (fault budget 1 quick / 2 thorough, failure = store unchanged), for map and LRU caches and 1-2 workers; plus ALL operation sequences of length 3 quick / 4 thorough over two keys with every placement of the injected failures; oracles: no two store callbacks of one key overlap, accepted order = store order, whenever no operation on a key is in flight the cached value equals the store's (checked at every scheduling decision and after every operation), successful delete leaves no cache entry, add on a cached key = duplicate error without a store call")
+	r.Rule("every interleaving (preemption bound as stated) of 2-3 callers issuing get/add/update/delete/update-or-add/upsert-then-load/upsert-then-renew on colliding keys, the instrumented in-memory store deciding by explorer choice whether each callback fails (fault budget 1 quick / 2 thorough, failure = store unchanged), for map and LRU caches and 1-2 workers; plus ALL operation sequences of length 3 quick / 4 thorough over two keys with every placement of the injected failures; oracles: no two store callbacks of one key overlap, accepted order = store order, whenever no operation on a key is in flight the cached value equals the store's (checked at every scheduling decision and after every operation), successful delete leaves no cache entry, add on a cached key = duplicate error without a store call, only the worker that serves a key ever caches it, an undisturbed Get returns the store's value; variant configurations: values bigger than the LRU, nil values, queue depth 1 with one and two workers (four callers saturating the queue)")
 	r.Assume("a failing store callback leaves the store unchanged", "cache contents are observed through the overlay hook VerifCachePeek")
 	mc.Main(r, scenarios(r))
 }
